@@ -445,10 +445,13 @@ class Spec(core.PropSpec):
                     break
                 # the sample must be what a replica scaled with exactly that value produces
                 for (idx, x), ctx in samples:
+                    # reference: the same seeded wrapper around the (unscheduled) inner transform scaled by exactly that value
                     rep = L[plan["inner"]]["make"]()
                     rep.scale_strength(want)
-                    rep.set_rng(np.random.default_rng(plan["seed"] + int(idx)))
-                    exp = rep(TensorDataset(N).getitem_x(idx), {})
+                    if plan.get("nest") == "compose2":
+                        rep = kdt.KDComposeTransform([rep, kdt.KDRandomHorizontalFlip(p=0.0)])
+                    ref_ds = ModeWrapper(XTransformWrapper(TensorDataset(N), rep, seed=plan["seed"]), mode="x")
+                    exp = ref_ds[int(idx)]
                     d = deep_diff(x, exp)
                     if d:
                         out.violate("C15:sample-not-scaled-by-schedule-value", site, f"batch {b} sample {idx}: {d}")
